@@ -107,13 +107,16 @@ func raceWorker() *wproto.Client {
 const confirmCPUMs = 30000
 
 // call runs one request; a hang under the search budget is re-run with the confirm budget when
-// in confirm mode. Returns (resp, crash, slow, harnessErr).
+// in confirm mode or before the first failure of a search. Returns (resp, crash, slow, harnessErr).
 func call(cl *wproto.Client, req *wproto.Request) (*wproto.Response, string, bool, error) {
 	resp, crash, err := cl.Call(req)
 	if err != nil {
 		return nil, "", false, err
 	}
-	if strings.HasPrefix(crash, "hang") && Confirm {
+	// The long budget is also granted during the search itself, until a failure has been seen (after that rapid
+	// is shrinking, and shrinking a genuine hang with 30 s per attempt would never end): a case which is merely
+	// slow is journalled as "slow" and the shard goes on.
+	if strings.HasPrefix(crash, "hang") && (Confirm || !sawFailure) {
 		r2 := *req
 		r2.CPUMs = confirmCPUMs
 		resp2, crash2, err := cl.Call(&r2)
